@@ -456,3 +456,18 @@ def proof_step(ctx, extra_trusted=()):
     for pr in a['problems']:
         ctx.violation('proof', pr, {'theorem_or_build': pr}, no_input=True)
     return a
+
+
+def fold_proof_failures(ctx):
+    """DESIGN §2.2: a theorem that no longer checks is reported as `no-failing-input-found` only if
+    the oracle found no failing input; otherwise the failing input is the report and carries the
+    proof failure along."""
+    proofs = [v for v in ctx.violations if v['kind'] == 'proof' and v['no_input']]
+    oracles = [v for v in ctx.violations if v['kind'] == 'oracle' and not v['no_input']]
+    if proofs and oracles:
+        for v in oracles[:3]:
+            if isinstance(v['replay'], dict):
+                v['replay']['proof_obligations_failing'] = [str(p['what'])[:1500] for p in proofs]
+        ctx.notes.append('proof obligations no longer checking (failing input found by the oracle): %s'
+                         % [str(p['what'])[:200] for p in proofs])
+        ctx.violations[:] = [v for v in ctx.violations if v not in proofs]
